@@ -537,6 +537,23 @@ def while_stmt(s, env, k, ctx, ind):
     return out
 
 
+def message_ok(m):
+    if isinstance(m, ast.Constant) and isinstance(m.value, str):
+        return True
+    if isinstance(m, ast.JoinedStr):
+        for part in m.values:
+            if isinstance(part, ast.Constant):
+                continue
+            if not (isinstance(part, ast.FormattedValue) and part.conversion == -1 and part.format_spec is None):
+                return False
+            src = u(part.value)
+            if not (src.endswith(".__class__.__name__") and src.count(".") == 2) and \
+                    not (src.startswith("str(len(") and src.endswith("))") and src[8:-2].isidentifier()):
+                return False
+        return True
+    return False
+
+
 def raise_stmt(s, env, ctx, ind):
     e = s.exc
     if not isinstance(e, ast.Call) or e.keywords:
@@ -561,8 +578,9 @@ def raise_stmt(s, env, ctx, ind):
         return [f"{ind}.err ⟨{kind}, {tag}, {ofs}⟩ {d} log"]
     if cls == "EncodeError" and ctx.fn == "_encode" and len(e.args) == 2:
         m = e.args[0]
-        if not (isinstance(m, ast.Constant) and isinstance(m.value, str)) and not isinstance(m, ast.JoinedStr):
-            raise Unsupported(f"{ctx.fn}: message `{u(m)[:60]}`")
+        if not message_ok(m):
+            raise Unsupported(f"{ctx.fn}: message `{u(m)[:60]}` is not built from constants, class names and lengths "
+                              "(it is evaluated before the error exists and may raise something else)")
         tag, tt = expr(e.args[1], env)
         if tt != "S":
             raise Unsupported(f"{ctx.fn}: EncodeError tag `{u(e.args[1])}`")
